@@ -141,10 +141,22 @@ Fixpoint check_hw_tree (fuel : nat) (r : string -> Q) (t : ctree expr) : list na
       ((fst here ++ flat_map fst kids)%list, (snd here ++ flat_map snd kids)%list)
   end.
 
+(* C16 speaks of routines with non-negative port sizes: a point (parameters may be negative there) is used only if
+   every port of every node has a non-negative size at it (and every declared number of ancillae is non-negative) *)
+Fixpoint ports_nonneg (fuel : nat) (r : string -> Q) (t : ctree expr) : bool :=
+  match fuel with
+  | O => false
+  | S f =>
+      forallb (fun p => match evalQ r (snd (snd p)) with Some q => Qle_bool 0 q | None => true end) (ct_ports t)
+      && match res_val r t "local_ancillae" with Some (Some a) => Qle_bool 0 a | _ => true end   (* a count of qubits *)
+      && forallb (ports_nonneg f r) (ct_children t)
+  end.
+
 Definition check_highwater (impl : impl_result) (pts : list (list (string * Q))) : list nat * list nat :=
   match impl with
   | IOk t =>
-      let rs := map (fun p => check_hw_tree (S (ct_height t)) (envQ p (dfltQ 0)) t) pts in
+      let rs := map (fun p => if ports_nonneg (S (ct_height t)) (envQ p (dfltQ 0)) t
+                              then check_hw_tree (S (ct_height t)) (envQ p (dfltQ 0)) t else ([2%nat], [2%nat])) pts in
       (flat_map fst rs, flat_map snd rs)
   | IErr _ => ([1%nat], [])
   end.
